@@ -512,7 +512,7 @@ func runTreeScenario(w *ndWriter, seed int64, variant string, nEvents int, idx i
 		newNode()
 	}
 	if wide {
-		for len(s.nodes) < maxNodes-rng.Intn(3) && !s.wedged {
+		for tries := 0; len(s.nodes) < maxNodes-rng.Intn(3) && !s.wedged && tries < 40; tries++ {
 			newNode()
 		}
 	}
@@ -584,7 +584,7 @@ func runTreeScenario(w *ndWriter, seed int64, variant string, nEvents int, idx i
 			time.Sleep(time.Duration(rng.Intn(150)) * time.Microsecond)
 		}
 	}
-	for len(s.nodes) < 3 && !s.wedged && !earlyClose {
+	for tries := 0; len(s.nodes) < 3 && !s.wedged && !earlyClose && tries < 10; tries++ {
 		newNode()
 		if len(s.publishers()) == 0 {
 			break
